@@ -1,6 +1,6 @@
 SPECIFICATION Spec
 CONSTANTS Kinds = {"reply"}
-  NH = 3 NObj = 2 Max = 5 MaxExtra = 1 MaxTries = 2 AsFound = FALSE
+  NH = 3 NObj = 2 Max = 4 MaxExtra = 1 MaxTries = 2 AsFound = FALSE
 VIEW View
 INVARIANTS TypeOK AliveIffReferenced CountExact NoDangling ObsAgrees
 PROPERTIES RefusedUnchanged DestroyedOnce NoResurrection ReplaceOnce
